@@ -109,7 +109,18 @@ def _walk(body: list[nodes.Node], env: dict[str, str], sc: _Scope, active_loops:
                 _rename_expr(n.filter, env)
             _walk(n.body, env, sc, active_loops)
             continue
-        if isinstance(n, (nodes.CallBlock, nodes.FilterBlock, nodes.Scope, nodes.With)):
+        if isinstance(n, nodes.With):
+            # `{% with x = EXPR %}`: x is scoped to the block and reads as its definition, like a single-definition `set`
+            env2 = dict(env)
+            for t, v in zip(n.targets, n.values):
+                _rename_expr(v, env2)
+                if isinstance(t, nodes.Name) and t.name not in sc.keep:
+                    env2[t.name] = "(" + _cap(_text(v)) + ")"
+            for t in n.targets:
+                _rename_expr(t, env2)
+            _walk(n.body, env2, sc, active_loops)
+            continue
+        if isinstance(n, (nodes.CallBlock, nodes.FilterBlock, nodes.Scope)):
             for fld in ("call", "filter"):
                 v = getattr(n, fld, None)
                 if v is not None:
